@@ -29,7 +29,11 @@ for dp, dn, fns in os.walk(pkg):
                         and not (isinstance(body[0], ast.Return) and body[0].value is None):
                     templates[d.qual] = {"class": d.cls.name if d.cls is not None else None, "src": ast.unparse(d.node)}
 # functions of the reference tree that spell the body of a template out themselves (they must stay as they are when the helper is re-created)
-from sigstat.inline import ModuleInliner
+from sigstat.inline import ModuleInliner, _body_sig
+import hashlib
+bodies = {}
+for mod, tree in []:
+    pass
 trees = {}
 for dp, dn, fns in os.walk(pkg):
     dn[:] = sorted(d for d in dn if d not in ("_vendor", "__pycache__"))
@@ -55,5 +59,9 @@ for q, t in templates.items():
                 if type(n) is type(pat) and ModuleInliner._tmatch(pat, n, params, {}):
                     inst.append(d.qual)
     t["base_instances"] = sorted(set(inst))
-json.dump({"comment": "function inventory of the reference tree; see sigstat/inline.py", "functions": sorted(set(funcs)), "globals": sorted(set(globs)), "templates": templates}, open(INVENTORY, "w"), indent=0)
+for mod, tree in trees.items():
+    for d in enumerate_defs(mod, tree):
+        if d.kind in ("module", "method") and len(d.node.body) >= 2:
+            bodies[d.qual] = _body_sig(d.node)
+json.dump({"comment": "function inventory of the reference tree; see sigstat/inline.py", "functions": sorted(set(funcs)), "globals": sorted(set(globs)), "templates": templates, "bodies": bodies}, open(INVENTORY, "w"), indent=0)
 print(len(set(funcs)), "functions")
